@@ -1,10 +1,29 @@
 package protocol
 
 import (
+	"errors"
+	"io"
+	"sync"
+	"time"
+
+	"github.com/coreos/go-semver/semver"
+	mapset "github.com/deckarep/golang-set"
+	"github.com/idena-network/idena-go/blockchain"
+	"github.com/idena-network/idena-go/blockchain/types"
 	"github.com/idena-network/idena-go/common"
+	"github.com/idena-network/idena-go/common/eventbus"
 	"github.com/idena-network/idena-go/common/pushpull"
+	"github.com/idena-network/idena-go/config"
+	"github.com/idena-network/idena-go/core/appstate"
+	"github.com/idena-network/idena-go/core/flip"
+	"github.com/idena-network/idena-go/core/mempool"
+	"github.com/idena-network/idena-go/events"
+	"github.com/idena-network/idena-go/ipfs"
+	"github.com/idena-network/idena-go/log"
+	"github.com/idena-network/idena-go/pengings"
 	"github.com/idena-network/idena-go/verifhook/vsync"
 	"github.com/libp2p/go-libp2p-core/peer"
+	"github.com/patrickmn/go-cache"
 )
 
 // VerifCodecs lists constructors of every wire type of this package that has a
@@ -42,4 +61,188 @@ func (m *PushPullManager) VerifLoop(holder pushpull.Holder) { m.loop(pushTx, hol
 func (m *PushPullManager) VerifRecvRequest() (string, common.Hash128) {
 	r := vsync.Recv(m.requests).(pullRequest)
 	return string(r.peer), r.hash.Hash
+}
+
+// ---- C12: message delivery driver
+
+// verifFeed is the transport of the verification peer: frames are handed over one by one.
+type verifFeed struct{ next []byte }
+
+func (f *verifFeed) ReadMsg() ([]byte, error) {
+	if f.next == nil {
+		return nil, io.EOF
+	}
+	b := f.next
+	f.next = nil
+	return b, nil
+}
+func (f *verifFeed) ReleaseMsg([]byte)          {}
+func (f *verifFeed) NextMsgLen() (int, error)   { return len(f.next), nil }
+func (f *verifFeed) Read(b []byte) (int, error) { return 0, io.EOF }
+func (f *verifFeed) Write(b []byte) (int, error) { return len(b), nil }
+func (f *verifFeed) WriteMsg(b []byte) error    { return nil }
+func (f *verifFeed) Close() error               { return nil }
+
+type verifChecker struct{}
+
+func (verifChecker) IsRunning() bool { return false }
+
+// VerifNode is a gossip handler with one connected peer whose transport is fed by the harness.
+type VerifNode struct {
+	H    *IdenaGossipHandler
+	P    *protoPeer
+	feed *verifFeed
+	fs   *fullSync
+}
+
+func VerifNewNode(chain *blockchain.Blockchain, appState *appstate.AppState, ipfsProxy ipfs.Proxy, proposals *pengings.Proposals, votes *pengings.Votes, txpool *mempool.TxPool, fp *flip.Flipper, bus eventbus.Bus, keys *mempool.KeysPool) *VerifNode {
+	logger := log.New()
+	h := &IdenaGossipHandler{
+		cfg:                 config.P2P{},
+		bcn:                 chain,
+		peers:               newPeerSet(),
+		incomeBlocks:        make(chan *types.Block, 1000),
+		incomeBatches:       &sync.Map{},
+		proposals:           proposals,
+		votes:               votes,
+		pushPullManager:     NewPushPullManager(),
+		txpool:              txpool, // synchronous: a panic below the pool's recover reaches the caller
+		txChan:              make(chan *events.NewTxEvent, 1000),
+		flipKeyChan:         make(chan *events.NewFlipKeyEvent, 2000),
+		flipKeysPackageChan: make(chan *events.NewFlipKeysPackageEvent, 2000),
+		flipper:             fp,
+		bus:                 bus,
+		flipKeyPool:         keys,
+		appVersion:          "1.0.0",
+		log:                 logger,
+		throttlingLogger:    log.NewThrottlingLogger(logger),
+		pendingPeers:        make(map[peer.ID]struct{}),
+		metrics:             new(metricCollector),
+		ceremonyChecker:     verifChecker{},
+		connManager:         NewConnManager(nil, config.P2P{}),
+	}
+	h.pushPullManager.AddEntryHolder(pushVote, pushpull.NewDefaultHolder(1, pushpull.NewDefaultPushTracker(time.Millisecond*300)))
+	h.pushPullManager.AddEntryHolder(pushBlock, pushpull.NewDefaultHolder(1, pushpull.NewDefaultPushTracker(time.Second*3)))
+	h.pushPullManager.AddEntryHolder(pushProof, pushpull.NewDefaultHolder(1, pushpull.NewDefaultPushTracker(time.Second*1)))
+	h.pushPullManager.AddEntryHolder(pushFlip, pushpull.NewDefaultHolder(1, pushpull.NewDefaultPushTracker(time.Second*5)))
+	h.pushPullManager.AddEntryHolder(pushKeyPackage, keys)
+	h.pushPullManager.AddEntryHolder(pushTx, txpool)
+	h.registerMetrics()
+	feed := &verifFeed{}
+	id := peer.ID("verif-peer")
+	vers, _ := semver.NewVersion("1.0.0")
+	p := &protoPeer{
+		id:                   id,
+		prettyId:             "verif-peer",
+		rw:                   feed,
+		queuedRequests:       make(chan *request, queuedRequestsSize),
+		highPriorityRequests: make(chan *request, queuedHighPriorityRequestsSize),
+		pushQueue:            make(chan *queueItem, pushQueueSize),
+		flipKeyQueue:         make(chan *queueItem, flipKeyQueueSize),
+		term:                 make(chan struct{}),
+		finished:             make(chan struct{}),
+		msgCache:             cache.New(msgCacheAliveTime, msgCacheGcTime),
+		log:                  logger,
+		throttlingLogger:     log.NewThrottlingLogger(logger),
+		metrics:              h.metrics,
+		transportErr:         make(chan error, 1),
+		knownHeight:          &syncHeight{},
+		potentialHeight:      &syncHeight{},
+		version:              vers,
+		supportedFeatures:    map[PeerFeature]struct{}{},
+	}
+	h.peers.Register(p)
+	h.connManager.inboundPeers[id] = common.MultiShard
+	n := &VerifNode{H: h, P: p, feed: feed}
+	n.fs = NewFullSync(h, logger, chain, ipfsProxy, appState, mapset.NewSet(), 0, nil)
+	return n
+}
+
+// Deliver hands one transport frame to the real handle().
+func (n *VerifNode) Deliver(frame []byte) error {
+	n.feed.next = frame
+	// drain what the handler queued for the peer so that queues never fill up
+	for len(n.P.queuedRequests) > 0 {
+		<-n.P.queuedRequests
+	}
+	for len(n.P.highPriorityRequests) > 0 {
+		<-n.P.highPriorityRequests
+	}
+	return n.H.handle(n.P)
+}
+
+// ExpectBatch registers an open block-range request so that a BlocksRange answer is consumed.
+func (n *VerifNode) ExpectBatch(id uint32) { n.ExpectBatchOf(id, 10000) }
+
+// ExpectBatchOf: the open request asked for `requested` blocks (GetBlocksRange sizes the channel so).
+func (n *VerifNode) ExpectBatchOf(id uint32, requested int) {
+	pb, _ := n.H.incomeBatches.LoadOrStore(n.P.id, &sync.Map{})
+	pb.(*sync.Map).Store(id, &batch{headers: make(chan *block, requested), p: n.P})
+}
+
+// ValidateRange decodes payload as a block range like handle() and, if valid, validates every
+// header the way fullSync.processBatch does. Returns the number of headers validated.
+func (n *VerifNode) ValidateRange(payload []byte) (int, error) {
+	var r blockRange
+	if err := r.FromBytes(payload); err != nil {
+		return 0, err
+	}
+	if !r.IsValid() {
+		return 0, errors.New("invalid range")
+	}
+	n.fs.deferredHeaders = nil
+	cnt := 0
+	for _, b := range r.Blocks {
+		cnt++
+		if err := n.fs.validateHeader(b, n.P); err != nil {
+			return cnt, err
+		}
+		n.fs.deferredHeaders = append(n.fs.deferredHeaders, blockPeer{*b, n.P.id})
+	}
+	return cnt, nil
+}
+
+// VerifFrame wraps a payload into a transport frame like makeMsg does.
+func VerifFrame(code uint64, payload []byte) []byte {
+	msg, err := (&Msg{Code: code, Payload: payload}).ToBytes()
+	if err != nil {
+		panic(err)
+	}
+	return Encode(code, msg)
+}
+
+// VerifRangeBytes encodes a block range of headers with certificates.
+func VerifRangeBytes(batchId uint32, headers []*types.Header, certs []*types.BlockCert) []byte {
+	r := &blockRange{BatchId: batchId}
+	for i, h := range headers {
+		b := &block{Header: h}
+		if i < len(certs) {
+			b.Cert = certs[i]
+		}
+		r.Blocks = append(r.Blocks, b)
+	}
+	out, _ := r.ToBytes()
+	return out
+}
+
+func VerifPushBytes(t uint32, h common.Hash128) []byte {
+	p := pushPullHash{Type: pushType(t), Hash: h}
+	out, _ := p.ToBytes()
+	return out
+}
+
+func VerifBatchBytes(items ...[]byte) []byte {
+	m := &msgBatch{}
+	for _, i := range items {
+		m.Data = append(m.Data, &batchItem{Payload: i})
+	}
+	out, _ := m.ToBytes()
+	return out
+}
+
+var VerifCodes = map[string]uint64{
+	"Handshake": Handshake, "ProposeBlock": ProposeBlock, "ProposeProof": ProposeProof, "Vote": Vote, "NewTx": NewTx,
+	"GetBlockByHash": GetBlockByHash, "GetBlocksRange": GetBlocksRange, "BlocksRange": BlocksRange, "FlipBody": FlipBody,
+	"FlipKey": FlipKey, "SnapshotManifest": SnapshotManifest, "GetForkBlockRange": GetForkBlockRange, "FlipKeysPackage": FlipKeysPackage,
+	"Push": Push, "Pull": Pull, "Block": Block, "UpdateShardId": UpdateShardId, "BatchPush": BatchPush, "BatchFlipKey": BatchFlipKey, "Disconnect": Disconnect,
 }
